@@ -504,7 +504,7 @@ var uStructTargets = []string{"@S1", "@S2", "@S3", "@S4", "@S4", "*@S4", "[]@S4"
 	// named and self-referential types
 	"@List", "@Tree", "@A", "@B", "@Named", "*@List", "[]@Tree", "map:@A", "**@B", "[]*@List", "map:[]@Tree", "@MyIn", "*@Named"}
 
-var uOtherTargets = []string{"[]any", "map:any", "[]int", "[]string", "map:string", "map:float64", "[]uint8", "[][]int16",
+var uOtherTargets = []string{"[]@Empty", "*[]@Empty", "map:[]@Empty", "map:@Empty", "@Empty", "[][]@Empty", "[]any", "map:any", "[]int", "[]string", "map:string", "map:float64", "[]uint8", "[][]int16",
 	"map:[]string", "[]map:bool", "*int", "**string", "*[]*int8", "map:*float32", "[]*any", "*map:any", "[][][]uint", "*[]int",
 	"map:map:map:int", "[]**int",
 	"@RL", "@RM", "@MyInt", "@MyStr", "@MyBool", "@MyF", "@MyU8", "@Strs", "@MyInts", "@M", "@MAny", "@Anys", "@PInt", "@MyAny", "@KM", "@KMS", "map:@KMS",
@@ -763,7 +763,7 @@ func genUnfLens(r *Rand, tier string, emit func(string)) {
 // genUnfReuse: one unfolder over several documents; abandon at every event index of small
 // documents, then a follow-up document
 func genUnfReuse(r *Rand, tier string, emit func(string)) {
-	targets := []string{"any", "[]any", "map:any", "[]int", "map:string", "@S1", "@S2", "@S3", "[]@In", "map:@In", "**@In", "[][]int", "*[]*int8", "map:map:int",
+	targets := []string{"[]@Empty", "map:[]@Empty", "*[]@Empty", "@S4", "any", "[]any", "map:any", "[]int", "map:string", "@S1", "@S2", "@S3", "[]@In", "map:@In", "**@In", "[][]int", "*[]*int8", "map:map:int",
 		"@List", "@Tree", "@A", "@Named", "@RL", "@RM", "@M"}
 	small := tierN(tier, 6, 40)
 	for _, tn := range targets {
